@@ -870,6 +870,18 @@ func (i *Index) DropSeriesList(seriesIDs []uint64, keys [][]byte, _ bool) error 
 		}
 	}
 
+	// Remove the series from the cached tag value series sets.
+	i.tagValueCache.RLock()
+	for idx, key := range keys {
+		name, tags := models.ParseKeyBytes(key)
+		if i.tagValueCache.measurementContainsSets(name) {
+			for _, pair := range tags {
+				i.tagValueCache.delete(name, pair.Key, pair.Value, seriesIDs[idx]) // Takes a lock on the series id set
+			}
+		}
+	}
+	i.tagValueCache.RUnlock()
+
 	// Add sketch tombstone.
 	i.mu.Lock()
 	defer i.mu.Unlock()
